@@ -5,6 +5,7 @@
   index expressions / key functions / fusion trees; nothing is enumerated.
 -/
 import CubedModel.Proofs.Blockwise
+import CubedModel.Proofs.BlockwiseKey
 import CubedModel.Proofs.Fusion
 
 namespace Cubed.C15
@@ -19,6 +20,17 @@ theorem C15_addressing_eq_reference (e : Expr) (dims : Nat → Nat) (out : List 
     (hlen : out.length = e.outInd.length) :
     entry e dims out i nb = refEntry e dims out i nb :=
   entry_eq_ref e dims out i nb hlen
+
+/-- (a') The whole key function for expressions without contraction (elementwise, broadcasting, new
+axes — every index-notation op cubed builds except contractions): when it succeeds it returns exactly
+one key per argument, in argument order, labelled with the out key's name, with the reference
+coordinates. -/
+theorem C15_key_function_eq_reference (e : Expr) (out : CK) (fa : FArgs CK)
+    (hlen : out.coords.length = e.outInd.length)
+    (hnd : ∀ a ∈ e.args, hasDummy e a = false)
+    (h : keyFn e out = .ok fa) :
+    fa.out = out.name ∧ All2 (ArgKey e out.coords) e.args fa.args :=
+  keyFn_no_contraction e out fa hlen hnd h
 
 /-- (b) Designated blocks exist: inside the output grid every selected coordinate is a valid block
 index of the argument. -/
